@@ -9,6 +9,7 @@ import (
 	"fmt"
 	"html"
 	"io"
+	"math"
 	"reflect"
 	"sort"
 	"strconv"
@@ -502,9 +503,9 @@ func showInJS(env *env, out io.Writer, value any) error {
 	case reflect.Uint, reflect.Uint8, reflect.Uint16, reflect.Uint32, reflect.Uint64, reflect.Uintptr:
 		s = strconv.FormatUint(v.Uint(), 10)
 	case reflect.Float32:
-		s = strconv.FormatFloat(v.Float(), 'f', -1, 32)
+		s = formatFloatInJS(v.Float(), 32)
 	case reflect.Float64:
-		s = strconv.FormatFloat(v.Float(), 'f', -1, 64)
+		s = formatFloatInJS(v.Float(), 64)
 	case reflect.String:
 		_, err := w.WriteString("\"")
 		if err == nil {
@@ -705,9 +706,9 @@ func showInJSON(env *env, out io.Writer, value any) error {
 	case reflect.Uint, reflect.Uint8, reflect.Uint16, reflect.Uint32, reflect.Uint64, reflect.Uintptr:
 		s = strconv.FormatUint(v.Uint(), 10)
 	case reflect.Float32:
-		s = strconv.FormatFloat(v.Float(), 'f', -1, 32)
+		s = formatFloatInJSON(v.Float(), 32)
 	case reflect.Float64:
-		s = strconv.FormatFloat(v.Float(), 'f', -1, 64)
+		s = formatFloatInJSON(v.Float(), 64)
 	case reflect.String:
 		_, err := w.WriteString("\"")
 		if err == nil {
@@ -859,6 +860,28 @@ func showInJSON(env *env, out io.Writer, value any) error {
 
 	_, err := w.WriteString(s)
 	return err
+}
+
+// formatFloatInJS formats f, with the given bit size, as a JavaScript number.
+// Infinities are formatted as Infinity and -Infinity, NaN as NaN.
+func formatFloatInJS(f float64, bitSize int) string {
+	if math.IsInf(f, 0) {
+		if f < 0 {
+			return "-Infinity"
+		}
+		return "Infinity"
+	}
+	return strconv.FormatFloat(f, 'f', -1, bitSize)
+}
+
+// formatFloatInJSON formats f, with the given bit size, as a JSON number.
+// JSON cannot represent infinities and NaN, so they are formatted as null,
+// like the JavaScript function JSON.stringify does.
+func formatFloatInJSON(f float64, bitSize int) string {
+	if math.IsInf(f, 0) || math.IsNaN(f) {
+		return "null"
+	}
+	return strconv.FormatFloat(f, 'f', -1, bitSize)
 }
 
 // showInJSString shows value in JSString context.
